@@ -846,3 +846,68 @@ def gridspec_polygon_filter(prog: Program) -> List[Instance]:
                             "tile yielded only when the query is not disjoint from that tile's extent" if ok else
                             f"`{short(st, 60)}` is reachable without the query having been tested against the extent of the yielded tile: tiles that only touch the query's bounding box are returned", f.where(y)))
     return out
+
+
+WORLD_CONSUMERS = {"from_transform", "polygon_from_transform", "resolution_from_affine"}
+WORLD_AFFINE_EXEMPT = {
+    "alignment": "pixel-edge alignment is only defined for linear geoboxes; no property speaks about it for GCP geoboxes",
+}
+
+
+def base_world_affine_use(prog: Program) -> List[Instance]:
+    """GeoBoxBase is shared by linear geoboxes (where `_affine` maps pixels to the world) and by geoboxes
+    whose `linear` is False (GCPGeoBox: `_affine` is only the crop/zoom view in the pixel plane). A base
+    method that uses `self._affine` as a pixel->world mapping - hands it to from_transform /
+    polygon_from_transform / resolution_from_affine, applies it or its inverse to a point, unpacks its
+    six numbers - must be overridden in every non-linear subclass or be guarded by `self.linear` on that
+    path; otherwise the non-linear subclass answers in pixel units labelled with the world CRS."""
+    out: List[Instance] = []
+    base = prog.classes.get("geobox:GeoBoxBase")
+    if base is None:
+        return [Instance("R-SIBLING", "geobox:GeoBoxBase#world-affine-use", UNDET, "GeoBoxBase not found", "")]
+    nonlinear = []
+    for ci in prog.classes.values():
+        if ci is base or base not in ci.mro():
+            continue
+        lp = ci.methods.get("linear")
+        if lp is not None and any(isinstance(r, ast.Return) and isinstance(r.value, ast.Constant) and r.value.value is False for r in walk_own(lp.node)):
+            nonlinear.append(ci)
+    if not nonlinear:
+        return [Instance("R-SIBLING", "geobox:GeoBoxBase#world-affine-use", INFO, "no subclass declares linear = False", "", nontrivial=False)]
+    for name, m in sorted(base.methods.items()):
+        if name.startswith("__"):
+            continue
+        me = m.self_name
+        uses = []
+        for n in walk_own(m.node):
+            if not (isinstance(n, ast.Attribute) and n.attr == "_affine" and isinstance(n.value, ast.Name) and n.value.id == me and isinstance(n.ctx, ast.Load)):
+                continue
+            p = parent(n)
+            kind = None
+            if isinstance(p, ast.Call) and call_name(p) in WORLD_CONSUMERS and n in p.args:
+                kind = f"argument of {call_name(p)}()"
+            elif isinstance(p, ast.keyword) and isinstance(parent(p), ast.Call) and call_name(parent(p)) in WORLD_CONSUMERS:
+                kind = f"argument of {call_name(parent(p))}()"
+            elif isinstance(p, ast.BinOp) and isinstance(p.op, ast.Mult) and p.left is n and isinstance(p.right, ast.Tuple):
+                kind = "applied to a point"
+            elif isinstance(p, ast.UnaryOp) and isinstance(p.op, ast.Invert) and isinstance(parent(p), ast.BinOp) and isinstance(parent(p).right, ast.Tuple):
+                kind = "inverse applied to a point"
+            elif isinstance(p, ast.Assign) and isinstance(p.targets[0], (ast.Tuple, ast.List)) and p.value is n:
+                kind = "unpacked into its components"
+            if kind:
+                uses.append((n, kind))
+        if not uses:
+            continue
+        cond = Conditions(m.body)
+        for k, (n, kind) in enumerate(uses):
+            cid = f"{m.qual}#world-affine-use:{k}"
+            if name in WORLD_AFFINE_EXEMPT:
+                out.append(Instance("R-SIBLING", cid, INFO, f"table: {WORLD_AFFINE_EXEMPT[name]}", m.where(n), nontrivial=False))
+                continue
+            guarded = any(isinstance(e, ast.Attribute) and e.attr == "linear" and p_ for e, p_ in conds_at(cond, enclosing_stmt(n)))
+            missing = [ci.name for ci in nonlinear if name not in ci.methods]
+            ok = guarded or not missing
+            out.append(Instance("R-SIBLING", cid, OK if ok else BAD,
+                                (f"`self._affine` {kind} only on the `self.linear` path" if guarded else f"overridden in {[c.name for c in nonlinear]}") if ok else
+                                f"GeoBoxBase.{name} uses `self._affine` as a pixel->world mapping ({kind}) without a `self.linear` guard, and {missing} does not override it: for that class `_affine` is only the view in the pixel plane, the answer is in pixel units labelled with the world CRS", m.where(n)))
+    return out
